@@ -6,7 +6,7 @@ memory (their own correctness is rule SC); buffer primitives are recorded as eff
 import ast
 
 from .linear import Poly
-from .peval import Builtin, Effect, Interp, Obj, Opaque, PyExc, SArr, Sym, fromp, topoly
+from .peval import Builtin, Effect, Interp, NpInt, Obj, Opaque, PyExc, SArr, Sym, fromp, topoly
 from .srcmodel import AnalysisError
 
 
@@ -63,7 +63,8 @@ class World:
         (x,) = args
         p = P(x)
         if p.is_const():
-            return (p.const_value() + 7) & -8
+            r = (p.const_value() + 7) & -8
+            return NpInt(r) if isinstance(x, NpInt) else r  # (a numpy integer stays one)
         # slot(8*k + c) simplifications are not attempted: idiom atom
         return Sym(Poly.atom(f"slot({p!r})"))
 
